@@ -153,6 +153,43 @@ def spzHolds (h : Spz.Header) (recs : List Spz.Packed) (n dim : Nat) (fsL : List
     | some r => bitsEq got (pointFloats (Spz.dequant spzEnv h r))
     | none => false
 
+/-- the predicate `PointWithinStep` of theorem `spz_write_read` (Props/C15SpzFile.lean) evaluated at `Float` on the
+    implementation's read-back of a cloud packed by the reference packer: per field, guard ⇒ bound (relative slack
+    1e-9 for the Float evaluation of the comparison itself); `w` = `rotW` of the decoded `x y z`, bit for bit;
+    every array has `n` entries, `dim` SH arrays.  `orig` and `fs`: `pointFloats` order per splat / `cloudFloats` order. -/
+def spzStepHolds (h : Spz.Header) (origL : List Float) (n dim : Nat) (fsL : List Float) : Bool :=
+  let N := h.numPoints
+  let D := Spz.shDim h.shDegree
+  let fs := fsL.toArray
+  let orig := origL.toArray
+  let P := 14 + 3 * D
+  let slack : Float := 1.0 + 1e-9
+  let within := fun (x x' b : Float) => Float.abs (x' - x) ≤ b * slack
+  let at3 := fun (off i : Nat) => [fs.getD (off + 3 * i) 0, fs.getD (off + 3 * i + 1) 0, fs.getD (off + 3 * i + 2) 0]
+  let posOk := fun (x x' : Float) =>
+    if h.version = 1 then
+      !(Float.abs x ≤ 65504.0) || within x x' (max (Float.abs x / 2048.0) (Float.scaleB 1.0 (-25)))
+    else
+      let z := Float.floor (x * Float.scaleB 1.0 (Int.ofNat h.fractionalBits) + 0.5)
+      !(-8388608.0 ≤ z && z < 8388608.0) || within x x' (Float.scaleB 0.5 (-(Int.ofNat h.fractionalBits)))
+  let rng := fun (lo hi b : Float) (x x' : Float) => !(lo ≤ x && x ≤ hi) || within x x' b
+  n == N && dim == D && orig.size == N * P && fs.size == N * P && h.fractionalBits ≤ 62 &&
+  (List.range N).all fun i =>
+    let got := (at3 0 i ++ [fs.getD (3 * N + i) 0] ++ at3 (4 * N) i ++ at3 (7 * N) i ++
+      [fs.getD (10 * N + 4 * i) 0, fs.getD (10 * N + 4 * i + 1) 0, fs.getD (10 * N + 4 * i + 2) 0, fs.getD (10 * N + 4 * i + 3) 0] ++
+      (List.range D).flatMap (fun d => at3 (14 * N + 3 * N * d) i)).toArray
+    let o := fun j => orig.getD (i * P + j) 0
+    let g := fun j => got.getD j 0
+    got.size == P &&
+    (List.range P).all fun j =>
+      if j < 3 then posOk (o j) (g j)
+      else if j == 3 then rng 0.0 1.0 (1.0 / 510.0) (o j) (g j)
+      else if j < 7 then rng (-(10.0 / 3.0)) (10.0 / 3.0) (2.0 / 153.0) (o j) (g j)
+      else if j < 10 then rng (-10.0) (95.0 / 16.0) (1.0 / 32.0) (o j) (g j)
+      else if j < 13 then rng (-1.0) 1.0 (1.0 / 255.0) (o j) (g j)
+      else if j == 13 then (g 13).toBits == (Spz.rotW (g 10) (g 11) (g 12)).toBits
+      else rng (-1.0) (127.0 / 128.0) (1.0 / 256.0) (o j) (g j)
+
 /-- `… holds.readers_agree`: the decoder was fed the same bytes through a family of io.Readers (different chunkings);
     args: (reader-name digest)* — true iff every digest equals the first (the decode is a function of the bytes) -/
 def readersAgree : List String → Option Bool
@@ -168,6 +205,15 @@ def readersAgree : List String → Option Bool
 def handleSpz (op : String) (args : List String) : Option String :=
   match op, args with
   | "c15.spz.read", [hex] => (hexBytes? hex).map spzReadAnswer
+  | "c15.holds.spz_pack_step", ver :: np :: deg :: fb :: rest => do
+      let h : Spz.Header := ⟨Spz.magicNum, ← ver.toNat?, ← np.toNat?, ← deg.toNat?, ← fb.toNat?, 0, 0⟩
+      let cnt := h.numPoints * (14 + 3 * Spz.shDim h.shDegree)
+      let orig ← floats? (rest.take cnt)
+      match rest.drop cnt with
+      | "ok" :: n :: dim :: fl => do
+          let fs ← floats? fl
+          pure (boolStr (spzStepHolds h orig (← n.toNat?) (← dim.toNat?) fs))
+      | _ => pure "false"
   | "c15.spz.halfall", [base, count] => do
       -- version-1 positions, EVERY pattern: the operator form of util.go halfToFloat on `BitVec 16`
       -- (Half.halfToFloatBits, proved equal to Spz.halfToFloat and to IEEE binary16 in Props/C15Half.lean)
